@@ -291,6 +291,9 @@ def run_shard(prop, run, exe, tier, seed, cases, start, shard, nshards, outdir, 
                 except ValueError:
                     continue
                 v["run"] = run["name"]
+                hp = os.path.join(outdir, "history-%s.jsonl" % v.get("case"))
+                if os.path.exists(hp):
+                    v["history"] = hp
                 if v.get("assertion", "").startswith("hang") and rc == EXIT_HANG:
                     res.hang_candidates.append(v)
                 else:
@@ -504,6 +507,17 @@ def check_property(prop, spec, tier, seed, replay=None, keep=False):
 
     if replay:
         rp = json.load(open(replay))
+        offline_hit = False
+        if rp.get("history"):
+            # the verdict on a recorded history does not depend on reproducing the schedule
+            hp = os.path.join(VERIF, rp["history"])
+            r0 = subprocess.run([sys.executable, os.path.join(VERIF, "monitors", "history.py"), hp],
+                                stdout=subprocess.PIPE, text=True)
+            print("offline re-check of the recorded history (%s):" % rp["history"])
+            print(r0.stdout.rstrip())
+            want = "/".join(rp["key"].split("/")[:3])
+            offline_hit = any(want in ln for ln in r0.stdout.splitlines())
+            print("OFFLINE-%s %s" % ("CONFIRMED" if offline_hit else "NOT-CONFIRMED", rp["key"]))
         run = next(r for r in runs if r["name"] == rp["run"])
         od = os.path.join(workdir, "replay")
         r = run_shard(prop, run, exes[run["name"]], tier, rp["seed"], rp["case"] + 1, 0, 0, 1, od, 900,
@@ -512,6 +526,7 @@ def check_property(prop, spec, tier, seed, replay=None, keep=False):
         print("replay of %s: observed keys %s" % (replay, keys))
         hit = rp["key"] in keys
         print("REPRODUCED" if hit else "NOT-REPRODUCED", rp["key"])
+        hit = hit or offline_hit
         if not keep:
             shutil.rmtree(workdir, ignore_errors=True)
         return 1 if hit else 0
@@ -531,7 +546,11 @@ def check_property(prop, spec, tier, seed, replay=None, keep=False):
 
     rounds = 0
     mult = 1
-    while unmet() and rounds < 3 and not failures:
+    # (pointless once something was found: the verdict is already "violated" / needs the hang re-run)
+    def found_new():
+        return bool(total.hang_candidates) or any(not match_known(v["key"], known) for v in total.violations)
+
+    while unmet() and rounds < 3 and not failures and not found_new():
         rounds += 1
         log("coverage floors not met %s; extending the workload (round %d)" % (unmet(), rounds))
         pend = []
@@ -579,15 +598,28 @@ def check_property(prop, spec, tier, seed, replay=None, keep=False):
         else:
             new_keys.append(k)
 
+    # one line per listed finding (an entry may cover several keys of the same defect)
+    seen_entries = []
     for k, e in known_hits:
-        print("KNOWN-FINDING: property=%s %s [%s]" % (prop, e.get("what", ""), k))
+        if any(e is x for x in seen_entries):
+            continue
+        seen_entries.append(e)
+        ks = [kk for kk, ee in known_hits if ee is e]
+        print("KNOWN-FINDING: property=%s %s [%s%s]" % (prop, e.get("what", ""), e.get("key"),
+                                                       "; %d key(s) observed" % len(ks) if len(ks) > 1 else ""))
     replay_paths = {}
     for k in new_keys:
         w = by_key[k]["witness"]
         rp = os.path.join(evroot, "evidence", "replays", "%s-%s.json" % (prop, hashlib.sha1(k.encode()).hexdigest()[:10]))
+        hist = None
+        if w.get("history") and os.path.exists(w["history"]):
+            # the recorded witness history travels with the replay file (re-checked by monitors/history.py)
+            hist = rp[:-5] + ".history.jsonl"
+            shutil.copyfile(w["history"], hist)
         with open(rp, "w") as f:
             json.dump({"property": prop, "key": k, "run": w.get("run"), "seed": w.get("seed"), "case": w.get("case"),
-                       "tier": tier, "count": by_key[k]["count"], "detail": w.get("detail")}, f, indent=1)
+                       "tier": tier, "count": by_key[k]["count"], "detail": w.get("detail"),
+                       "history": os.path.relpath(hist, VERIF) if hist else None}, f, indent=1)
         replay_paths[k] = rp
         print("VIOLATION property=%s replay=%s key=%s" % (prop, os.path.relpath(rp, VERIF), k))
 
